@@ -407,8 +407,76 @@ def per_unknown_config(kind):
                          "jinns.loss._loss_utils:constraints_system_loss_apply"])
 
 
+def per_unknown_config_ode():
+    """SystemLossODE: each unknown's observation slice and initial condition reach that unknown's terms (two unknowns with
+    two outputs each, different slices, different initial states, written in non-alphabetical order)"""
+    def build():
+        uk = ["v", "u"]              # insertion order differs from the sorted order
+        B = 2
+        nets = {u: Net(f"O{u}", "ODE", 1, 2) for u in uk}
+        R = Opaque("RO", 1 + 2 * (2 + 2) + 1, 1)
+        dyn = {"e1": SysODE(R=R, ukeys=("v", "u"))}
+        oslice = {"v": jnp.s_[1:2], "u": jnp.s_[0:1]}
+        W = {"observations": {"v": 5.0, "u": 7.0}, "initial_condition": {"v": 11.0, "u": 13.0}}
+        def fn(th, a_, pts_, t0, u0, oin, oval):
+            pd = ParamsDict(nn_params={u: nets[u].nn_params(th[i]) for i, u in enumerate(uk)}, eq_params={"a": a_})
+            with jax.ensure_compile_time_eval():
+                loss = SystemLossODE(u_dict={u: nets[u].u for u in uk}, dynamic_loss_dict=dyn, params_dict=pd,
+                                     loss_weights=LossWeightsODEDict(dyn_loss=0.0, **W), obs_slice_dict=dict(oslice),
+                                     initial_condition_dict={u: (0.5, np.zeros((2,))) for u in uk})
+            loss = eqx.tree_at(lambda l: [l.u_constraints_dict[u].initial_condition for u in uk], loss, [(t0, u0[i]) for i in range(2)])
+            obs = {u: {"pinn_in": oin[i], "val": oval[i], "eq_params": {}} for i, u in enumerate(uk)}
+            tot, ts = loss.evaluate(pd, ODEBatch(temporal_batch=pts_, obs_batch_dict=obs))
+            exp = {t: 0.0 for t in W}
+            for i, u in enumerate(uk):
+                params = nets[u].params(th[i], {"a": a_})
+                plain = mk_loss(LossODE, u=nets[u].u, dynamic_loss=None, params=params, initial_condition=(t0, u0[i]), obs_slice=oslice[u],
+                                loss_weights=LossWeightsODE(dyn_loss=0.0, initial_condition=1.0, observations=1.0))
+                pt_ = plain.evaluate(params, ODEBatch(temporal_batch=pts_, obs_batch_dict=obs[u]))[1]
+                for t in W:
+                    exp[t] = exp[t] + W[t][u] * pt_[t]
+            return [ts[t] - exp[t] for t in sorted(W)]
+        def spec(*args):
+            return [arr(lambda _: P.ZERO, ())] * len(W)
+        return dict(fn=fn, spec=spec, canary=lambda *z: [arr(lambda _: P.ONE, ())] * len(W),
+                    inputs=[Inp("th", (2, 1)), Inp("a", ()), Inp("pts", (B,)), Inp("t0", ()), Inp("u0", (2, 2)), Inp("oin", (2, B, 1)), Inp("oval", (2, B, 1))])
+    return EqObligation("C13/SystemLossODE.__post_init__/ensures.per_unknown_entries_reach_their_unknown[ODE]", build,
+                        ["jinns.loss._LossODE:SystemLossODE.__post_init__", "jinns.loss._LossODE:SystemLossODE.evaluate",
+                         "jinns.loss._loss_utils:constraints_system_loss_apply"])
+
+
+def mixed_system():
+    """a PDE system mixing a stationary unknown (a coefficient field D(x), written first) with a non-stationary one: each
+    unknown's constraint loss is of its own kind, so the non-stationary unknown keeps its initial-condition term"""
+    def build():
+        B = 2
+        netD = Net("MD", "statio_PDE", 1, 1)
+        netU = Net("MU", "nonstatio_PDE", 2, 1)
+        fic = OpaqueFn("mic", [(1,)], (1,))
+        class Eq(PDENonStatio):
+            def equation(self, t, x, u_dict, params_dict):
+                return u_dict["u"](t, x, params_dict.extract_params("u")) * u_dict["D"](x, params_dict.extract_params("D"))
+        def fn(th, a_, pts_, wi, wd):
+            pd = ParamsDict(nn_params={"D": netD.nn_params(th[0]), "u": netU.nn_params(th[1])}, eq_params={"a": a_})
+            with jax.ensure_compile_time_eval():
+                loss = SystemLossPDE(u_dict={"D": netD.u, "u": netU.u}, dynamic_loss_dict={"e1": Eq()}, params_dict=pd,
+                                     loss_weights=LossWeightsPDEDict(dyn_loss=1.0, initial_condition=7.0),
+                                     initial_condition_fun_dict={"D": None, "u": (lambda x: fic(x))})
+            tot, ts = loss.evaluate(pd, PDENonStatioBatch(times_x_inside_batch=pts_, times_x_border_batch=None))
+            return [ts["initial_condition"], ts["dyn_loss"]]
+        def spec(th, a_, pts_, wi, wd, wrong=False):
+            nD, nU = netD.jet(th[0]), netU.jet(th[1])
+            ic = mean([(P.app("mic", 0, (), [pts_[i, 1]]) - nU(0, [c(0), pts_[i, 1]])) ** 2 for i in range(B)]) * c(7 if not wrong else 1)
+            dy = mean([(nU(0, [pts_[i, 0], pts_[i, 1]]) * nD(0, [pts_[i, 1]])) ** 2 for i in range(B)])
+            return [arr(lambda _: ic, ()), arr(lambda _: dy, ())]
+        return dict(fn=fn, spec=spec, canary=lambda *z: spec(*z, wrong=True),
+                    inputs=[Inp("th", (2, 1)), Inp("a", ()), Inp("pts", (B, 2)), Inp("wi", ()), Inp("wd", ())])
+    return EqObligation("C13/SystemLossPDE.__post_init__/ensures.each_unknown_gets_a_constraint_loss_of_its_own_kind[stationary_unknown_first]", build,
+                        ["jinns.loss._LossPDE:SystemLossPDE.__post_init__", "jinns.loss._LossPDE:SystemLossPDE.evaluate"])
+
+
 def obligations(tier):
-    obs = [per_unknown_config("statio"), per_unknown_config("nonstatio")]
+    obs = [per_unknown_config("statio"), per_unknown_config("nonstatio"), per_unknown_config_ode(), mixed_system()]
     for kind in ("ODE", "statio", "nonstatio"):
         allu = lambda n: tuple(UK[:n])
         # shapes of the system: equations and unknowns vary independently
